@@ -7,6 +7,7 @@ over constructed cell objects `PCell`).  Pruning: Proofs/Prune.lean (`PruneRel`)
 the proof cell's 256-bit field); soundness takes a LOCAL no-collision hypothesis on the representations at hand.
 -/
 import TonVerif.Proofs.Merkle
+import TonVerif.Proofs.Binding
 import TonVerif.Proofs.OrdCell
 
 namespace TonVerif.Properties.C11
@@ -357,13 +358,14 @@ theorem c11_reject_changed (H : Bytes → Bytes) (h32 : ∀ x, (H x).length = 32
 
 /-! Non-vacuity of the binding hypotheses: a toy hash with 32-byte output that is injective on the representations
 at hand (it returns the first 32 bytes, zero padded); the tree has an inner Merkle proof cell whose child (looked at on
-level 1) holds a pruned branch of mask 1, so a cell with two significant levels and a chained hash occurs. -/
+level 1) holds a pruned branch of mask 1, so a cell with two significant levels and a chained hash occurs
+(`reprs toyH treeB` has 7 entries). -/
 def toyH : Bytes → Bytes := fun x => (x ++ List.replicate 32 0).take 32
 def leafA : Cell := .mk (-1) [true, false] []
 def pbB : Cell := .mk 1 (bytesToBits ([1, 1] ++ List.replicate 32 7 ++ [0, 0])) []
 def nodeB : Cell := .mk (-1) [false] [pbB, leafA]
-def mB : Cell := .mk 3 (bytesToBits ([3] ++ List.replicate 32 9 ++ [0, 1])) [nodeB]
-def treeB : Cell := .mk (-1) [true] [mB]
+def mB : Cell := .mk 3 [true, true] [nodeB]
+def treeB : Cell := .mk (-1) [true] [mB, leafA]
 
 theorem treeB_shape : Shape treeB := by
   have hm : pmaskOf (bytesToBits ([1, 1] ++ List.replicate 32 7 ++ [0, 0])) = 1 := by decide +kernel
@@ -374,8 +376,10 @@ theorem treeB_shape : Shape treeB := by
   simp
 
 example : (∀ x, (toyH x).length = 32) ∧ Shape treeB ∧ (∃ s, specInfo toyH treeB = some s) ∧
+    (reprs toyH treeB).length = 7 ∧
     (∀ x y, x ∈ reprs toyH treeB → y ∈ reprs toyH treeB → toyH x = toyH y → x = y) := by
-  refine ⟨by intro x; simp [toyH], treeB_shape, by simp [treeB, mB, nodeB, pbB, leafA, specInfo, specInfos, kindOf], ?_⟩
+  refine ⟨by intro x; simp [toyH], treeB_shape,
+    by simp [treeB, mB, nodeB, pbB, leafA, specInfo, specInfos, kindOf], by decide +kernel, ?_⟩
   have key : ∀ x ∈ reprs toyH treeB, ∀ y ∈ reprs toyH treeB, toyH x = toyH y → x = y := by decide +kernel
   exact fun x y hx hy => key x hx y hy
 
